@@ -296,6 +296,9 @@ def run(tier, seed):
         "interleavings are forced at the hook points log.pre / log.flushed / cache.exit / api.return; a schedule the real locks forbid is 'unrealised' (no verdict)",
         "two writers, one operation each per scheduled case; longer runs are covered by the free-running tier",
     ]
+    # the repository's own tests as drivers: every recorded execution against the monitor half of System.tla
+    from .. import suite
+    suite.check(v, wd)
     return v.finish(
         rule="cases = TLC-enumerated interleavings (GenStoreSeq a/b/c) x concrete operation kinds, plus seeded free-running router runs; "
              "non-trivial = at least two actors actually stepped at gate points (scheduled) or more than two streams written (free); distinct by schedule+ops hash",
@@ -306,6 +309,9 @@ def replay(path, seed):
     with open(path) as f:
         rep = json.load(f)
     case = rep["case"]
+    if case.get("engine") == "suite":
+        from .. import suite
+        return suite.replay(PROP, path, case)
     wd = workdir(PROP + "-replay")
     if case.get("engine") == "sched":
         hc = case["case"]
